@@ -414,12 +414,16 @@ static var Process_Open(var self, var filename, var access) {
 static void Process_Close(var self) {
   struct Process* p = self;
   
+  if (p->proc is NULL) {
+    throw(IOError, "Cannot close process - no process open.");
+  }
+  
   int err = pclose(p->proc);
+  p->proc = NULL;
   if (err != 0) {
     throw(IOError, "Failed to close process: %i", $I(err));
   }
   
-  p->proc = NULL;
 }
 
 static void Process_Seek(var self, int64_t pos, int origin) {
